@@ -26,6 +26,13 @@ Lemma ctor_caller_dict_ok : forall style kwargs : dict,
   ctor_caller_dict_after ctor_copies_style style kwargs = style.
 Proof. intros style kwargs. reflexivity. Qed.
 
+(* reading one object's style leaves the (possibly shared) constructor dict as it was, so a second object built
+   from the same dict gets exactly the style of an object built from its own copy *)
+Lemma shared_ctor_dict_ok : forall (s : schema) (d : dict),
+  shared_dict_after_read pending_style_consumed_by_rebinding d = d /\
+  second_object_style pending_style_consumed_by_rebinding s d = obj_new cenv s d [].
+Proof. intros s d. split; reflexivity. Qed.
+
 Lemma magic_fresh_ok : magic_merge_fresh = true.
 Proof. reflexivity. Qed.
 
